@@ -115,6 +115,12 @@ pub extern "C" fn task_cancel(handle: &JoinHandle) -> c_longlong {
     }
 }
 
+///释放任务句柄
+#[no_mangle]
+pub extern "C" fn task_drop(handle: JoinHandle) {
+    drop(handle);
+}
+
 ///等待任务完成
 #[no_mangle]
 pub extern "C" fn task_join(handle: &JoinHandle) -> c_longlong {
